@@ -13,6 +13,18 @@ CHECKS = {
              "float payloads restricted to multiples of 2^-10.",
         technique="Coq proof (induction over sequences, Permutation) + vm_compute correspondence",
         design="6/C11"),
+    "C12": dict(
+        text="Coq theorems over GraphVal.v for all id/edge lists over Z (every integer dtype, full range): the graph part of "
+             "validate_data passes iff ids unique, endpoints exist, no self edge, no repeated edge (ordered if directed, unordered "
+             "via norm_edge otherwise); offender lists are exactly the offenders (membership iff count>1 / filter spec, NoDup); "
+             "sphere iff 1-D and non-negative over non-missing entries; ellipsoid iff (N,d,d) with d=#space axes, symmetric and "
+             "Sylvester-positive over non-missing entries; dispatch theorem (raises iff an enabled+declared validator fails). "
+             "Tie: validators' verdicts and offender arrays, and validate_data outcomes, compared with the model in Coq.",
+        note="Trusted: Coq kernel+VM, harness; np.unique/np.isin modelled by meaning; positive-definite = Sylvester criterion "
+             "(equivalence with the quadratic-form definition not re-proved); eigvals/allclose tied only on small integer, "
+             "non-singular matrices; lineage/tracklet flags of validate_data are oracle-only here (modelled in C13/C14).",
+        technique="Coq proof (iff by induction, NoDup/count lemmas) + vm_compute correspondence",
+        design="6/C12"),
 }
 
 NOT_YET = {
